@@ -22,13 +22,19 @@
    application calls on either side: delivered = taken in both directions, in order, each once, except possibly the one outstanding
    item (C16_uline_exactly_once).  Refuted for the original secondary (fi: an ASDU delivered twice after a link test) and the original
    primary (fg: a message never transmitted again).
+   (7) SEVERAL SLAVES on one unbalanced line (Link/LinkLineM.v): the literal master (pu_sm: round robin over the slave connections,
+   one outstanding request; pu_on_msg: routing of the answer by address, or to the current connection for the single character)
+   and n literal slave stations with distinct addresses that all see every frame: each master run is, for the connection the
+   scheduler selected, exactly one step of the single-connection line of (6); the other connections are untouched and the other
+   stations ignore the frame (parse_su on a frame for another address).  Hence for EVERY slave whose connection has not been
+   reported in error the exactly-once statement of (6) holds, whatever the scheduler does (C16_mline_exactly_once).
    NOT proved: frames that are DELAYED on the line (several frames queued between the stations, answers arriving after the
-   acknowledgement timeout), several slaves sharing the line (round robin of the unbalanced master), and the composition with the
+   acknowledgement timeout), the broadcast service of the unbalanced master, and the composition with the
    ring of the class queues (cs101_queue.c; the slave application here is the FIFO stub of the harness).  Those stay with the
    differential execution of the composed model against the real CS101_Master / CS101_Slave objects on the simulated
    line, and with the exactly-once oracle, on every run. *)
 From Coq Require Import ZArith List Bool.
-From L60870 Require Import Link.Abp Link.AbpProofs Link.Cs101Queue Link.Cs101QueueProofs Link.Ft12 Link.LinkSec Link.LinkPrim Link.Ft12Proofs Link.LinkProofs Link.LinkOnce Link.LinkLine Link.LinkLineU.
+From L60870 Require Import Link.Abp Link.AbpProofs Link.Cs101Queue Link.Cs101QueueProofs Link.Ft12 Link.LinkSec Link.LinkPrim Link.Ft12Proofs Link.LinkProofs Link.LinkOnce Link.LinkLine Link.LinkLineU Link.LinkLineM.
 Import ListNotations.
 Local Open Scope Z_scope.
 
@@ -169,6 +175,33 @@ Theorem C16_uline_exactly_once_refuted_primary :
                [UMsg [45; 1; 6; 0; 1; 0; 7]; URun 10 true false; UTest; URun 250 false false; URun 300 false false; URun 400 false false; URun 500 false false] uex_st in
   ufail st' = false /\ sc_ps (um st') = PLL_AVAILABLE /\ uT st' = [[45; 1; 6; 0; 1; 0; 7]] /\ uD st' = [].
 Proof. exact uline_exactly_once_refuted_fg. Qed.
+
+(* several slaves on one unbalanced line (Link/LinkLineM.v).  WF: distinct station addresses in range, each station paired with its
+   connection object, the scheduler index inside the table.  Pp p: the connection was reported in error, or the joint invariant JU of
+   (6) holds for it. *)
+Theorem C16_mline_exactly_once : forall v c, 0 <= alen c <= 2 -> fc_ v = true -> fg v = true -> fh v = true -> fi v = true ->
+  forall evs st, WF c st -> Forall (Pp c) (mpairs st) ->
+  Forall (fun p => ufail p = false ->
+            (uD p = uT p \/ (uT p = uD p ++ [sc_msg (um p)] /\ sc_ps (um p) = PLL_SEND_CONFIRM)) /\
+            (uU p = uR p \/ (uR p = uU p ++ [su_udbuf (us p)] /\ sc_ps (um p) = PLL_REQUEST_RESPOND)))
+         (mpairs (fold_left (mstep v c) evs st)).
+Proof. exact mline_exactly_once. Qed.
+
+Theorem C16_mline_invariant : forall v c, 0 <= alen c <= 2 -> fc_ v = true -> fg v = true -> fh v = true -> fi v = true ->
+  forall evs st, WF c st -> Forall (Pp c) (mpairs st) ->
+  WF c (fold_left (mstep v c) evs st) /\ Forall (Pp c) (mpairs (fold_left (mstep v c) evs st)).
+Proof. exact mline_invariant. Qed.
+
+Example C16_mline_hypotheses : WF uex_c mex_st /\ Forall (Pp uex_c) (mpairs mex_st).
+Proof. exact mline_hypotheses. Qed.
+
+Example C16_mline_example :
+  let st' := fold_left (mstep uex_v uex_c) mex_evs mex_st in
+  map (fun p => (sc_addr (um p), ufail p, uD p, uU p)) (mpairs st') =
+  [(3, false, [], [[30; 1; 3; 0; 1; 0; 1]]);
+   (5, false, [[45; 1; 6; 0; 1; 0; 7]], [[30; 1; 3; 0; 1; 0; 2]; [9; 1; 3; 0; 1; 0; 3]])] /\
+  map (fun p => (uT p, uR p)) (mpairs st') = map (fun p => (uD p, uU p)) (mpairs st').
+Proof. exact mline_example. Qed.
 
 Example C16_example :
   delivered nat (abp_run nat (abp_init nat [1; 2; 3]%nat)
